@@ -593,9 +593,9 @@ def main(argv):
     from . import tracer as T
     from . import emit_coq as EC
     verif = HERE
-    gen = os.path.join(verif, 'coq', 'gen')
+    gen = os.environ.get('VERIF_GEN') or os.path.join(verif, 'coq', 'gen')
     obl = os.path.join(gen, 'obl')
-    build = os.path.join(verif, '_build', 'C16')
+    build = os.path.join(os.environ.get('VERIF_BUILD') or os.path.join(verif, '_build'), 'C16')
     for d in (gen, obl, build):
         os.makedirs(d, exist_ok=True)
     only = set(argv[1:])
